@@ -215,7 +215,7 @@ func (e *Exec) convert(fr *frame, st *State, x Val, from, to types.Type, pos tok
 			e.ctx.declareFun("str_bytes", []string{sStr}, arraySort(sInt, sInt))
 			if !e.boxAx["str_bytes"] {
 				e.boxAx["str_bytes"] = true
-				e.ctx.assume("(forall ((s Str) (i Int)) (! (= (select (str_bytes s) i) (sat s i)) :pattern ((select (str_bytes s) i))))")
+				e.ctx.assumeGlobal("(forall ((s Str) (i Int)) (! (= (select (str_bytes s) i) (sat s i)) :pattern ((select (str_bytes s) i))))")
 			}
 			e.setHeap(st, h, sto(e.heapTerm(st, h), r, app("str_bytes", x.T)))
 			return Val{T: mkSlice(r, "0", app("slen", x.T), app("slen", x.T)), S: sSlice}
@@ -236,8 +236,8 @@ func (e *Exec) convert(fr *frame, st *State, x Val, from, to types.Type, pos tok
 			e.ctx.declareFun("bytes_str", []string{arraySort(sInt, sInt), sInt, sInt}, sStr)
 			if !e.boxAx["bytes_str"] {
 				e.boxAx["bytes_str"] = true
-				e.ctx.assume("(forall ((a (Array Int Int)) (o Int) (n Int)) (! (=> (>= n 0) (= (slen (bytes_str a o n)) n)) :pattern ((bytes_str a o n))))")
-				e.ctx.assume("(forall ((a (Array Int Int)) (o Int) (n Int) (i Int)) (! (=> (and (<= 0 i) (< i n)) (= (sat (bytes_str a o n) i) (select a (+ o i)))) :pattern ((sat (bytes_str a o n) i))))")
+				e.ctx.assumeGlobal("(forall ((a (Array Int Int)) (o Int) (n Int)) (! (=> (>= n 0) (= (slen (bytes_str a o n)) n)) :pattern ((bytes_str a o n))))")
+				e.ctx.assumeGlobal("(forall ((a (Array Int Int)) (o Int) (n Int) (i Int)) (! (=> (and (<= 0 i) (< i n)) (= (sat (bytes_str a o n) i) (select a (+ o i)))) :pattern ((sat (bytes_str a o n) i))))")
 			}
 			return Val{T: app("bytes_str", arr, slOff(x.T), slLen(x.T)), S: sStr}
 		}
